@@ -19,4 +19,7 @@ if __name__ == '__main__':
                 'unknown coding, corrupt gzip, unknown and malformed paths) against the real server thread')
     c.run('C13.dechunk_streams', 'B', wrap(replays_C13.dechunk, 38), replay_fn='C13:dechunk',
           bound='all truncations of a valid 3-chunk body + 8 malformed streams, 2 s time limit each')
+    from native import C09_native
+    c.run('C13.full_operation_queue', 'B', C09_native.full_queue,
+          bound='one set-request against a full operation worker queue (10 entries), 4 s limit')
     c.emit()
